@@ -37,3 +37,14 @@ Print Assumptions c15_grammar_typed.
 Theorem c15_actions_pinned : go_actions = pinned_actions.
 Proof. exact actions_pinned. Qed.
 Print Assumptions c15_actions_pinned.
+
+(* part of what "the language" is: a number literal may be followed by any blank (space, tab, carriage return, line feed), by a closing
+   parenthesis, by a closing brace, or by the end of the text - the look-ahead rule AfterNumbers of the grammar read from /repo holds there *)
+From Coq Require Import ZArith. From Bexpr Require Import Lex Calc Skel Num NumFollow.
+Theorem c15_what_may_follow_a_number :
+  (forall (c : cell) (k : list cell),
+     List.In (crune c) (32 :: 9 :: 13 :: 10 :: 41 :: 125 :: nil)%Z -> Lex.all_valid (c :: k) ->
+     Calc.pe_ok (PRef "AfterNumbers"%string) (c :: k) (c :: k) nil)
+  /\ Calc.pe_ok (PRef "AfterNumbers"%string) nil nil nil.
+Proof. exact (conj NumFollow.number_followers NumFollow.number_at_the_end). Qed.
+Print Assumptions c15_what_may_follow_a_number.
